@@ -4,7 +4,7 @@ from __future__ import annotations
 
 import ast
 
-from ..model import AnalysisError, Func, Repo, dotted, norm, walk_shallow
+from ..model import AnalysisError, Func, Repo, dotted, is_name, norm, walk_shallow
 from ..report import Ledger
 from ..sym import Const, Lin, Range, State, Sym, SymExec, as_lin, opaque, NotNumeric
 
@@ -481,3 +481,84 @@ def append_loop_elt(loop: ast.For):
     if loop.orelse:
         return None
     return tree(loop.body)
+
+
+# --------------------------------------------------------------------------------------------------
+# cache-key completeness: a value memoised in a local dict must not depend on more than its key
+# --------------------------------------------------------------------------------------------------
+def cache_key_complete(L: Ledger, rule: str, f: Func):
+    """For every local dict of `f` that is used as a cache inside a loop (read with .get(K) / `K in D` / D[K], filled with
+    D[K] = V in the same loop): every per-iteration input V is computed from (attribute paths rooted at the loop variables,
+    followed through locals assigned in the loop) must also feed K.  Otherwise a later iteration with the same key but a
+    different value of the missing input gets the earlier iteration's result.  -> number of caches examined"""
+    n = 0
+    dicts = {a.targets[0].id for a in walk_shallow(f.node) if isinstance(a, ast.Assign) and len(a.targets) == 1 and isinstance(a.targets[0], ast.Name) and ((isinstance(a.value, ast.Dict) and not a.value.keys) or (isinstance(a.value, ast.Call) and dotted(a.value.func) in ("dict", "defaultdict", "collections.defaultdict") and not a.value.args))}
+    if not dicts:
+        return 0
+    for lp in [x for x in walk_shallow(f.node) if isinstance(x, ast.For | ast.While)]:
+        loop_vars = {x.id for x in ast.walk(lp.target) if isinstance(x, ast.Name)} if isinstance(lp, ast.For) else set()
+        # enclosing loops' variables vary too
+        from ..util import ancestors as _anc
+
+        for a in _anc(lp):
+            if isinstance(a, ast.For):
+                loop_vars |= {x.id for x in ast.walk(a.target) if isinstance(x, ast.Name)}
+        assigned_in_loop = {}
+        for st in walk_shallow(lp):
+            if isinstance(st, ast.Assign):
+                for t in st.targets:
+                    for x in ast.walk(t):
+                        if isinstance(x, ast.Name) and isinstance(x.ctx, ast.Store):
+                            assigned_in_loop.setdefault(x.id, []).append(st.value)
+            elif isinstance(st, ast.NamedExpr):
+                assigned_in_loop.setdefault(st.target.id, []).append(st.value)
+
+        def inputs(e, depth=0, skip=()):
+            """attribute paths / names rooted at loop variables that e depends on"""
+            out = set()
+            for x in ast.walk(e):
+                if isinstance(x, ast.Attribute | ast.Subscript | ast.Name):
+                    root = x
+                    while isinstance(root, ast.Attribute | ast.Subscript):
+                        root = root.value
+                    if isinstance(root, ast.Name) and root.id in loop_vars and isinstance(x, ast.Attribute | ast.Subscript | ast.Name):
+                        par = getattr(x, "_parent", None)
+                        if isinstance(par, ast.Attribute | ast.Subscript) and par.value is x:
+                            continue  # take the longest path only
+                        out.add(norm(x))
+                    elif isinstance(x, ast.Name) and x.id in assigned_in_loop and x.id not in skip and depth < 3 and x.id not in dicts:
+                        for d in assigned_in_loop[x.id]:
+                            out |= inputs(d, depth + 1, (*skip, x.id))
+            return out
+
+        for st in walk_shallow(lp):
+            if not isinstance(st, ast.Assign):
+                continue
+            for t in st.targets:
+                if isinstance(t, ast.Subscript) and isinstance(t.value, ast.Name) and t.value.id in dicts:
+                    D, K, V = t.value.id, t.slice, st.value
+                    reads = [c for c in walk_shallow(lp) if (isinstance(c, ast.Call) and isinstance(c.func, ast.Attribute) and c.func.attr in ("get", "setdefault") and is_name(c.func.value, D)) or (isinstance(c, ast.Compare) and len(c.ops) == 1 and isinstance(c.ops[0], ast.In | ast.NotIn) and is_name(c.comparators[0], D)) or (isinstance(c, ast.Subscript) and isinstance(c.ctx, ast.Load) and is_name(c.value, D))]
+                    if not reads:
+                        continue  # filled but not read in the loop: an accumulator, not a cache
+                    # accumulators keyed by something (D[K] = D.get(K, 0) + 1, D[K].append) are not caches either
+                    def mentions_D(e, depth=0, seen=()):
+                        for x in ast.walk(e):
+                            if isinstance(x, ast.Name):
+                                if x.id == D:
+                                    return True
+                                if x.id in assigned_in_loop and x.id not in seen and depth < 3 and any(mentions_D(d_, depth + 1, (*seen, x.id)) for d_ in assigned_in_loop[x.id]):
+                                    return True
+                        return False
+
+                    if mentions_D(V):
+                        continue  # the new value is computed from the old one (running total): an accumulator
+                    n += 1
+                    kin, vin = inputs(K), inputs(V)
+                    # a value input is covered when it (or a prefix path of it) is a key input
+                    missing = sorted(v for v in vin if not any(v == k or v.startswith(k + ".") or v.startswith(k + "[") for k in kin))
+                    L.check(
+                        not missing, rule, f"{f.short}:cache {D}[{norm(K)[:30]}]", "cached value depends only on what its key is built from",
+                        f"'{D}' caches a value computed from {sorted(vin)} under the key '{norm(K)}' which is built from {sorted(kin)} only: a later item with the same key but a different {missing} is given the earlier item's result",
+                        f.loc(st), witness={"two items": f"same {sorted(kin)}, different {missing}"},
+                    )
+    return n
